@@ -12,7 +12,7 @@ CHECKS = {
         ref="5/C01"),
     "C02": dict(
         technique="TLC enumeration of token strings / grammar sentences / single-token edits -> accept-or-raise of real parser vs CPython; verdict pairs trace-validated by TLC (AstEq.tla)",
-        text="Bounded model checking of the complement language: inputs built from Python tokens only -- every token string up to a bound (AllTok), GramGen sentences of the pinned and of the WORKING-TREE grammar with all xonsh-only terminals banned (so a widened alternative yields new sentences), every single-token edit/prefix (EditGen over tokens) of valid sentences and stdlib statements, the tabs/spaces indentation family, the line layouts of Indent.tla (leading whitespace x line shape, with the predicted IndentationError / TabError / TokenError), f-string literals of FString.tla incl. invalid conversions, escapes and braces; CPython rejects => the implementation must raise. TLC validates each recorded verdict pair.",
+        text="Bounded model checking of the complement language: inputs built from Python tokens only -- every token string up to a bound (AllTok), GramGen sentences of the pinned and of the WORKING-TREE grammar with all xonsh-only terminals banned (so a widened alternative yields new sentences), every single-token edit/prefix (EditGen over tokens) of valid sentences and stdlib statements, the tabs/spaces indentation family, the line layouts of Indent.tla (leading whitespace x line shape, with the predicted IndentationError / TabError / TokenError), f-string literals of FString.tla and FMode.tla incl. invalid conversions, escapes and braces, numbers glued to a following word, continuation-only lines; CPython rejects => the implementation must raise. TLC validates each recorded verdict pair.",
         note="Trusted: CPython as oracle; lexicon membership holds by construction. Over-acceptance that needs more specific tokens than the bounds / edit neighbourhood is not reached.",
         ref="5/C02"),
     "C03": dict(
@@ -47,7 +47,7 @@ CHECKS = {
         ref="5/C09"),
     "C10": dict(
         technique="TLC enumeration of f-string literals from FString.tla -> real tokenizer/parser vs CPython; token-stream pairs (TokAgree.tla) and tree pairs (AstEq.tla) trace-validated by TLC",
-        text="FString.tla enumerates prefix (8) x quote (4) x sequences of 75 items (literal-part classes and replacement-field forms incl. conversions, '=', specs, nested fields, nested f-strings, lambda/dict/walrus, multi-line fields and specs, CRLF twins, backslash-newline, invalid-unless-raw escapes / conversions) x adjacent-literal concatenations (str / bytes / u / f neighbours); every f-string of the corpus / stdlib sample is added. For every literal CPython accepts, TLC validates the reduced token-stream pair and the flattened tree pair (with spans).",
+        text="FString.tla enumerates prefix (8) x quote (4) x sequences of 75 items (literal-part classes and replacement-field forms incl. conversions, '=', specs, nested fields, nested f-strings, lambda/dict/walrus, multi-line fields and specs, CRLF twins, backslash-newline, invalid-unless-raw escapes / conversions) x adjacent-literal concatenations (str / bytes / u / f neighbours), plus every complete single-line literal of the mode-machine model FMode.tla; every f-string of the corpus / stdlib sample is added. For every literal CPython accepts, TLC validates the reduced token-stream pair and the flattened tree pair (with spans).",
         note="CPython 3.12.1 is the oracle. Seven known findings by family (six earlier ones were repaired); a difference is attributed to one only if the same literal with that feature removed (harness/fsreduce.py) agrees completely in tokens and tree - or, for the two CPython tokenizer quirks (token cut after \\N{..}, empty parts in format specs), if the streams / trees recomputed in the worker with exactly those parts set aside are equal - otherwise it is a violation.",
         ref="5/C10"),
     "C11": dict(
@@ -93,7 +93,7 @@ CHECKS = {
         ref="5/C14"),
     "C08": dict(
         technique="trace validation: real token streams checked by TLC against the TokStream.tla law",
-        text="Every finished token stream of the real tokenizer on the TLC-generated input spaces (CharGen sub-alphabets, soup, LexGen lexeme sequences, Indent.tla line layouts, f-strings, corpus x layouts) is validated by TLC against TokStream.tla (text=slice, order, gaps only indentation/continuation, line closure, INDENT/DEDENT balance, single ENDMARKER); the first failing clause is named. Two implementation-shaped models predict the complete stream (LexGen.tla at lexeme level; Indent.tla for leading whitespace x line shape: INDENT/DEDENT/NEWLINE/NL, end tokens, IndentationError/TabError/TokenError with coordinates; TLC checks StacksIncrease, Balanced, EndBalanced, OneNewlinePerLogicalLine, SpacesNeverTabError, DedentOnlyToOpenLevel on the model) and every prediction is compared with the real stream (model drift is reported in the evidence).",
+        text="Every finished token stream of the real tokenizer on the TLC-generated input spaces (CharGen sub-alphabets, soup, LexGen lexeme sequences, Indent.tla line layouts, FMode.tla f-string lines, f-strings, corpus x layouts) is validated by TLC against TokStream.tla (text=slice, order, gaps only indentation/continuation, line closure, INDENT/DEDENT balance, single ENDMARKER); the first failing clause is named. Three implementation-shaped models predict the complete stream (LexGen.tla at lexeme level; FMode.tla = the f-string mode machine, mid / brace / colon frames with bracket levels, with StackShape, LevelsIncrease, NoOverlap, EndAtBase, FieldsBalanced checked by TLC; Indent.tla for leading whitespace x line shape: INDENT/DEDENT/NEWLINE/NL, end tokens, IndentationError/TabError/TokenError with coordinates; TLC checks StacksIncrease, Balanced, EndBalanced, OneNewlinePerLogicalLine, SpacesNeverTabError, DedentOnlyToOpenLevel on the model) and every prediction is compared with the real stream (model drift is reported in the evidence).",
         note="Trusted: line model = split after \\n (io.StringIO.readline); zero-width NL allowed (CPython does the same); ERRORTOKEN alone does not make a logical line.",
         ref="5/C08"),
 }
